@@ -150,7 +150,7 @@ func (so *Sorts) optSort(vs string) string {
 }
 
 func (so *Sorts) typeID(t types.Type) int {
-	k := types.TypeString(t, nil)
+	k := strings.ReplaceAll(types.TypeString(t, nil), "interface{}", "any")
 	if id, ok := so.typeIDs[k]; ok {
 		return id
 	}
